@@ -141,6 +141,10 @@ func init() {
 			return nil
 		},
 		symPkg + "Overflows": func(fr *frame, args []value) value { return cur.Overflows },
+		symPkg + "RandExtremes": func(fr *frame, args []value) value {
+			cur.RandExtremes = args[0].(bool)
+			return nil
+		},
 		symPkg + "NondetMaps": func(fr *frame, args []value) value {
 			cur.NondetMaps = args[0].(bool)
 			return nil
